@@ -417,6 +417,32 @@ def run(tier, seed):
             records.append({"fn": call_id.split("/")[0] + (".evaluate" if "/" in call_id and "." not in call_id.split("/")[0] else ""), "names": [],
                             "_desc": {"call": call_id, "PYTHONHASHSEED": hs, "->": dg}, "pre": [], "post": [],
                             "key": interner_k(key), "out": interner_o(bytes.fromhex(dg)), "n": 1})
+    # the repository's OWN test modules under the recorder (pytest plugin harness.pytest_recorder): every public call they
+    # make becomes a record too - judged on every step, not only where a test asserts something
+    from ..common import REPO
+    tdir = os.path.join(REPO, "tests")
+    mods = sorted(f for f in os.listdir(tdir) if f.startswith("test_") and f.endswith(".py") and f != "test_display.py")
+    if not thorough:
+        mods = [m for m in mods if m in ("test_util.py", "test_chord.py", "test_key.py", "test_tempo.py", "test_onset.py", "test_pattern.py",
+                                         "test_alignment.py", "test_transcription.py", "test_input_output.py", "test_beat.py")]
+    scratch = tlc.scratch_dir("ptrace_")
+    outp = os.path.join(scratch, "records.json")
+    env = dict(os.environ, PYTHONPATH=REPO + os.pathsep + os.path.dirname(os.path.dirname(os.path.dirname(os.path.abspath(__file__)))),
+               VERIF_TRACE_OUT=outp, MPLBACKEND="Agg", PYTHONHASHSEED="0")
+    p_ = subprocess.run([_sys.executable, "-m", "pytest", "-q", "-p", "no:cacheprovider", "--no-cov", "-p", "harness.pytest_recorder"] + mods,
+                        cwd=tdir, env=env, stdout=subprocess.PIPE, stderr=subprocess.STDOUT, text=True, timeout=3000)
+    try:
+        suite = json.load(open(outp))
+    except Exception as ex:  # noqa
+        raise Machinery("repository tests under the recorder produced no records: " + p_.stdout[-400:]) from ex
+    finally:
+        import shutil
+        shutil.rmtree(scratch, ignore_errors=True)
+    for r_ in suite["records"]:
+        records.append({"fn": r_["fn"], "names": r_["names"], "_desc": dict(r_["desc"], source="repository test-suite"),
+                        "pre": [interner_d(bytes.fromhex(d)) for d in r_["pre"]], "post": [interner_d(bytes.fromhex(d)) for d in r_["post"]],
+                        "key": interner_k(bytes.fromhex(r_["key"])), "out": interner_o(bytes.fromhex(r_["out"])), "n": r_["n"]})
+    n_suite = len(suite["records"])
     me = import_mir_eval()
     groups = {}
     for idx, r in enumerate(records):
@@ -429,6 +455,8 @@ def run(tier, seed):
     ev.cov["histories_executed"] = n_hist
     ev.cov["repository_fixture_pairs_in_histories"] = n_real
     ev.cov["fresh_state_history_calls"] = fresh
+    ev.cov["distinct_calls_recorded_from_the_repository_test_modules"] = n_suite
+    ev.cov["repository_test_modules_run_under_the_recorder"] = len(mods)
     ev.cov["calls_repeated_under_other_hash_seeds"] = hs_calls
     ev.cov["recorded_events_total"] = stats["events"]
     ev.cov["distinct_call_records"] = len(records)
